@@ -552,11 +552,13 @@ def _locate(spec: dict, a: bytes, b: bytes) -> str:
     n = min(len(a), len(b))
     for off in range(n):
         if a[off] != b[off]:
+            if off in (1, 11) and (a[off] ^ b[off]) & 0xF0:
+                return "header"          # flags / sap_type share byte 1, tier shares byte 11 with a length
             for lo, hi, subject in regions:
-                if lo <= off < hi and subject and not (off == 11 and subject is None):
+                if lo <= off < hi and subject:
                     return subject
     # only length fields (or the tail) differ: a part is missing altogether
-    if (a[11:13] != b[11:13]) and len(a) > 13 and len(b) > 13:
+    if n > 13 and (a[11] & 0x0F, a[12]) != (b[11] & 0x0F, b[12]):
         return cmd
     return "section"
 
@@ -891,7 +893,12 @@ class Gen:
         elif cmd == "splice_schedule":
             spec["splice_schedule"] = self.splice_schedule()
         x = self.r.random()
-        n = 0 if x < (0.5 if self.level == 0 else 0.3) else 1 if x < 0.65 else self.r.randrange(1, 3 if self.level < 2 else 6)
+        if x < (0.5 if self.level == 0 else 0.3):
+            n = 0
+        elif x < 0.65:
+            n = 1
+        else:
+            n = self.r.randrange(1, 3 if self.level < 2 else 6)
         spec["descriptors"] = [self.descriptor() for _ in range(n)]
         while section_size(spec) > 3 + 4095:            # section_length has 12 bits
             if spec["descriptors"]:
@@ -943,28 +950,30 @@ class Scte35Codec(Engine):
 
     def strategy(self, tier):
         from hypothesis import strategies as st
-        return st.builds(make_case, st.integers(0, 2 ** 64 - 1), st.integers(0, 3), st.sampled_from(COMMAND_MIX),
-                         st.integers(1, 3))
+        # 8 raw bytes, not st.integers: Hypothesis draws integers 0, 1, 2, 3 and the bounds again and again
+        seed = st.binary(min_size=8, max_size=8).map(lambda b: int.from_bytes(b, "big"))
+        return st.builds(make_case, seed, st.integers(0, 3), st.sampled_from(COMMAND_MIX), st.integers(1, 3))
 
     def check(self, case):
         return execute(case)
 
 
 PROPERTY = "C14"
-RULE = ("scte35_codec: Hypothesis builds 1-3 BinarySignals per case from plain data: header fields "
-        "(pts_adjustment 33 bits, cw_index 8, tier 12, protocol_version 8, sap_type 2, encryption_algorithm 6, "
-        "the two indicator bits) x command in {splice_null, splice_insert (program / program-immediate / "
-        "component / component-immediate / cancel; splice_time with and without a pts; break_duration absent "
-        "or with auto_return on/off and a 33-bit duration; 0-255 components), time_signal (pts or no time), "
-        "splice_schedule (0-12 splices: cancel / program / component, optional break_duration)} x 0-5 "
-        "descriptors of {avail, DTMF, segmentation (cancel, program or component segmentation, delivery "
-        "restrictions, 40-bit duration, upid type and 0..max bytes, any type id incl. the sub-segment ones), "
-        "time, audio, private tag}; every integer drawn over its whole bit width with 0, 1, 2^(k-1), 2^k-2 and "
-        "2^k-1 favoured; fields equal to the documented default are passed or left out; the signal is built "
-        "from objects or from one kwargs dictionary. Oracles: parse(encode(x)) has every field of x; the "
-        "independent decoder vt/scte.py finds CRC residue 0, consistent lengths and the generated values; "
-        "encode(parse(encode(x))) == encode(x). Non-trivial: a splice_insert or time_signal that carries a "
-        "pts, or at least one descriptor. distinct = canonical JSON of the case.")
+RULE = ("scte35_codec: Hypothesis draws (8 seed bytes, size level 0-3, command of the first signal, 1-3 signals); "
+        "random.Random(seed) then fills 1-3 BinarySignal descriptions: header fields (pts_adjustment 33 bits, "
+        "cw_index 8, tier 12, protocol_version 8, sap_type 2, encryption_algorithm 6, the two indicator bits) x "
+        "command in {splice_null, splice_insert (program / program-immediate / component / component-immediate / "
+        "cancel; splice_time with and without a pts; break_duration absent or with auto_return on/off and a "
+        "33-bit duration; 0-255 components), time_signal (pts or no time), splice_schedule (0-12 splices: cancel / "
+        "program / component, optional break_duration)} x 0-5 descriptors of {avail, DTMF, segmentation (cancel, "
+        "program or component segmentation, delivery restrictions, 40-bit duration, upid type and 0..max bytes, "
+        "any type id incl. the sub-segment ones), time, audio, private tag}; every integer over its whole bit "
+        "width, 40% of the draws from {0, 1, 2^(k-1)-1, 2^(k-1), 2^k-2, 2^k-1}; fields equal to the documented "
+        "default are passed or left out; the signal is built from objects or from one kwargs dictionary. Oracles: "
+        "parse(encode(x)) has every field of x; the independent decoder vt/scte.py finds CRC residue 0, "
+        "consistent lengths and the generated values; encode(parse(encode(x))) == encode(x). Non-trivial: a "
+        "splice_insert or time_signal that carries a pts, or at least one descriptor. distinct = canonical JSON "
+        "of the case; evaluations = signals.")
 ASSUMPTIONS = [
     "vt/scte.py (written from ANSI/SCTE 35 section 9/10 and CRC-32/MPEG-2, self-tested on the binary examples of "
     "tests/test_scte35.py and 14.1-14.3 of the standard) is the reference reading of the encoded bytes",
